@@ -274,6 +274,21 @@ func (s *state) CheckBody(ctx context.Context, hdr textproto.Header, _ buffer.Bu
 			}})
 	}
 
+	senderFields := 0
+	for fields := hdr.FieldsByKey("Sender"); fields.Next(); {
+		senderFields++
+	}
+	if senderFields > 1 {
+		// Same as for From: only the first field would be checked.
+		return s.c.errAction.Apply(module.CheckResult{
+			Reason: &exterrors.SMTPError{
+				Code:         550,
+				EnhancedCode: exterrors.EnhancedCode{5, 7, 0},
+				Message:      "Multiple Sender header fields are not allowed",
+				CheckName:    modName,
+			}})
+	}
+
 	var senderAddr string
 	if senderHdr := hdr.Get("Sender"); senderHdr != "" {
 		sender, err := mail.ParseAddress(senderHdr)
